@@ -30,7 +30,8 @@ NOT_FOLLOWED = {"gcol"}
 SKIP_KINDS = {"fheap-iblock"}
 XTAGS = {"sb-eof-stale": 101, "refcount-too-high": 102, "refcount-too-low": 103, "snod-unsorted": 104, "btree1-group-keys": 105,
          "btree1-node-truncated": 106, "snod-node-truncated": 107, "fheap-offset-excludes-block-prefix": 108,
-         "btree2-attr-type-5": 109}
+         "btree2-attr-type-5": 109, "group-dataspace-msg": 111, "dense-link-private-layout": 112, "btree2-link-id-truncated": 113,
+         "refcount-ignores-dense-links": 114}
 TAGS = dict(c05spec.TAGS, **XTAGS)
 TAGNAME = {v: k for k, v in TAGS.items()}
 # tags raised only inside structures the Coq walker does not follow / by clauses it does not have
